@@ -54,7 +54,10 @@ impl Prop for C08 {
             let len = getn(c, "len"); let plain = payload(rng.next(), len);
             let names = ["Alice Q. Sender-Person", "Bob the Recipient (work)"];
             let kr = format!("[Key]\nName = {}\nPublicKey = {}\nPrivateKey = {}\n\n[Key]\nName = {}\nPublicKey = {}\n", names[0], fx.alice.enc_pk, fx.alice.enc_sk, names[1], fx.bob.enc_pk);
-            let w = World { files: vec![("p".into(), plain.clone()), ("kr".into(), kr.into_bytes())], env: vec![("KESTREL_PASSWORD".into(), fx.alice.pw.into())], stdin: vec![] };
+            // every second run finds a longer, older ciphertext already at the output path
+            let mut files = vec![("p".to_string(), plain.clone()), ("kr".to_string(), kr.into_bytes())];
+            if rng.chance(1, 2) || len == 50 { files.push(("c".into(), rng.bytes(len + 5000))); }
+            let w = World { files, env: vec![("KESTREL_PASSWORD".into(), fx.alice.pw.into())], stdin: vec![] };
             let obs = run_kestrel(&w, &sv(&["encrypt", "p", "-t", names[1], "-f", names[0], "-o", "c", "-k", "kr", "--env-pass"]));
             let Some(f) = obs.file("c").cloned() else { o.oracle_fail = Some(("encrypt-succeeds".into(), obs.stderr)); return o; };
             o.tags.push("cli".into()); o.nontrivial = Some(format!("cli/{}/{}", len, get(c, "seed")));
